@@ -185,6 +185,83 @@ def grow_pattern(ctx, h, rng, methods, sig):
     return True
 
 
+def fixed_sweep(ctx, g, rng, methods, sig):
+    """A FIXED layout (addressed / address-less / zero-sized / abutting / overlapping intervals at 0, mid-range and the top of the
+    address space; blocks of size 0, 1 and more, nested, overlapping, reaching past their interval; expressions at offsets 0, inside,
+    at and beyond the size) queried EXHAUSTIVELY around every boundary: every scope x method x start in (boundary-1, boundary,
+    boundary+1) x length in (point, 1, 2, 5, 17) x step in (1, 2, 3), plus the integer 0 and empty ranges.  Deterministic on every
+    run; judged by the fresh-scan oracle and replayed on the model."""
+    from world import K
+    h = worldgen.Hist(g, rng, {})
+    n = {}
+
+    def new(kind, name, **kw):
+        n[name] = h.new(kind, **kw)
+        return n[name]
+    ir = new("IR", "ir")
+    for m in ("m1", "m2"):
+        new("Module", m)
+        h.emit([4, ir, n[m]])
+    for s_, m in (("s1", "m1"), ("s2", "m1"), ("s3", "m2")):
+        new("Section", s_)
+        h.emit([2, n[s_], [n[m]]])
+    TOP = (1 << 64) - 16
+    layout = [("b1", "s1", 0, 8), ("b2", "s1", 8, 8), ("b3", "s1", 12, 0), ("b4", "s2", None, 16), ("b5", "s2", 100, 4), ("b6", "s3", TOP, 12), ("b7", "s3", 10, 20)]
+    for b, s_, addr, size in layout:
+        new("ByteInterval", b, addr=addr, size=size)
+        h.emit([2, n[b], [n[s_]]])
+    blocks = [("b1", "CodeBlock", 0, 4), ("b1", "DataBlock", 0, 0), ("b1", "DataBlock", 2, 4), ("b1", "CodeBlock", 7, 1), ("b1", "DataBlock", 8, 0), ("b1", "CodeBlock", 6, 6),
+              ("b2", "CodeBlock", 0, 8), ("b2", "DataBlock", 3, 1), ("b3", "CodeBlock", 0, 2), ("b4", "CodeBlock", 4, 4), ("b5", "DataBlock", 1, 2),
+              ("b6", "CodeBlock", 8, 4), ("b6", "DataBlock", 11, 3), ("b7", "CodeBlock", 0, 20), ("b7", "DataBlock", 19, 1)]
+    for i, (b, kind, off, size) in enumerate(blocks):
+        x = h.new(kind)
+        h.emit([16, x, off])
+        h.emit([15, x, size])
+        h.emit([2, x, [n[b]]])
+    for b, offs in (("b1", [0, 3, 7, 8, 9]), ("b2", [0, 4]), ("b4", [2]), ("b6", [0, 11, 12]), ("b7", [0, 19, 25])):
+        for k, o in enumerate(offs):
+            h.emit([19, n[b], o, 1 + k])
+    pts_a = sorted({a + d for _, _, a, sz in layout if a is not None for d in (0, sz)} | {a + o for b, _, o, z in blocks for bb, _, a, _ in layout if bb == b and a is not None for o in (o, o + z)})
+    pts_o = sorted({o for _, _, o, z in blocks} | {o + z for _, _, o, z in blocks} | {0, 3, 7, 8, 9, 12, 19, 25})
+    scopes = {"ByteInterval": [n[b] for b, *_ in layout], "Section": [n["s1"], n["s2"], n["s3"]], "Module": [n["m1"], n["m2"]], "IR": [ir]}
+    nq = 0
+    for m in methods:
+        mm = QUERY_M[m]
+        if mm in (2, 3, 9):
+            sc, pts = scopes["ByteInterval"], pts_o
+        elif mm in (0, 1, 8):
+            sc, pts = scopes["ByteInterval"] + scopes["Section"] + scopes["Module"] + scopes["IR"], pts_a
+        elif mm in (4, 5):
+            sc, pts = scopes["Section"] + scopes["Module"] + scopes["IR"], pts_a
+        elif mm in (6, 7):
+            sc, pts = scopes["Module"] + scopes["IR"], pts_a
+        else:
+            sc, pts = scopes["Section"], [0]
+        kfs = (0, 1, 2) if mm in (0, 1, 2, 3) else (0,)
+        for scope in sc:
+            for p0 in pts:
+                for a in (p0 - 1, p0, p0 + 1):
+                    if a < 0:
+                        continue
+                    for ln, st in ((1, 1), (2, 1), (5, 1), (17, 1), (0, 1), (5, 2), (6, 2), (7, 3), (9, 3), (17, 4)):
+                        kf = kfs[nq % len(kfs)]
+                        it = [40, scope, mm, kf, a, a + ln, st]
+                        rep = h.emit(it)
+                        nq += 1
+                        bad = world.oracle_query(h.w, it, rep)
+                        if bad:
+                            h.problems.append((len(h.items) - 1, bad))
+                            ctx.add("oracle", "%s:m%d" % (sig, mm), "fixed layout, lookup %s: %s" % (it, "; ".join(bad[:2])), {"items": h.items, "problems": bad[:6]})
+                            ctx.count("fixed_sweep_queries", nq)
+                            return h
+                    if mm == 10:
+                        break
+                if mm == 10:
+                    break
+    ctx.count("fixed_sweep_queries", nq)
+    return h
+
+
 def lookup_history(ctx, g, rng, length, weights, methods, sig, per_step=3, pool=None):
     h = worldgen.Hist(g, rng, {"setm": EDIT_SETM + ["pop"], "pool": pool} if pool else {"setm": EDIT_SETM + ["pop"]})
     h.setup_pool()
